@@ -1,9 +1,9 @@
 SPECIFICATION Spec
-CONSTANT MaxCals = 2
-CONSTANT Names = {"X", "RX"}
-CONSTANT QueryNames = {"RX"}
-CONSTANT ModSets <- ModsAll
-CONSTANT MeasCals = TRUE
+CONSTANT Focuses = {"general", "mods", "params", "qubits", "meas"}
+CONSTANT MaxGeneral = 2
+CONSTANT MaxSmall = 3
+CONSTANT MaxMeas = 2
+CONSTANT GeneralNames = {"RX"}
 INVARIANT GateRefines
 INVARIANT MeasRefines
 INVARIANT ChosenIsLegal
